@@ -182,6 +182,18 @@ CLAIMS = {
   "technique": "static analysis: symbolic rendering of format templates + argument provenance and chain rules",
   "design_ref": "DESIGN.md section 4, C19",
  },
+ "C01": {
+  "text": "Spec-fixed structure decided from the resolved, macro-expanded program: every constant table/literal equals a value derived "
+          "independently from its defining formula; each of the 16+80+64 unrolled round statements of SHA-256/SHA-1/MD5 has the "
+          "specification's register rotation, rotate amounts, boolean function (compared as a truth table), message index and constant; "
+          "schedules, padding, length placement, HMAC pads/threshold/lengths, PBKDF2's block index/iteration/truncation structure, "
+          "CRC32C's polynomial, initial state, table generator and step pairing; block-buffer writes are bounded. Every output bit "
+          "depends on these; they are necessary conditions of bit-exactness.",
+  "note": "NOT decided: that the composition equals the standard functions for every message and partition (numerical equality "
+          "over all inputs), carry handling of the bit counters, one-shot/streaming agreement. Trusted: uint32_t arithmetic wraps.",
+  "technique": "static analysis: constants vs. independently derived standards, structural decomposition of round statements (normal forms/truth tables)",
+  "design_ref": "DESIGN.md section 4, C01",
+ },
 }
 
 NOT_APPLICABLE = {
